@@ -2,6 +2,8 @@
    fields named here are read, the harness appends the implementation's results behind them.
      A  id v                      -> id  hex(announce v)
      W  id v msg                  -> id  O:<hex(frame v msg)> | E          (write_msg)
+     H  id v n                    -> id  O:<hex header> | E                 (write_header v n, n decimal: WriteMsg of an
+                                                                            n-byte message writes this header ++ message, or refuses)
      F  id v m1,m2,...            -> id  hex(bytes written) | E            (write_stream: New + WriteMsg each)
      R  id stream sizes           -> id  <A|I|->|<n>:<m1,...>|<EOF|OTHER>    (read_stream (cut sizes stream))
      T  id v stream sizes         -> id  <n>:<Cdec|Dhex,...>|<EOF|OTHER>     (tr_stream v (cut sizes stream))
@@ -68,6 +70,12 @@ let () =
       Printf.printf "%s\t%s\n" id (hex_of_bytes (announce (variant_of v)))
     | "W" :: id :: v :: msg :: _ ->
       let r = match write_msg (variant_of v) (bytes_of_hex msg) with
+        | Ok b -> "O:" ^ hex_of_bytes b
+        | Err -> "E"
+        | Panic -> "P" in
+      Printf.printf "%s\t%s\n" id r
+    | "H" :: id :: v :: n :: _ ->
+      let r = match write_header (variant_of v) (n_of_int (int_of_string n)) with
         | Ok b -> "O:" ^ hex_of_bytes b
         | Err -> "E"
         | Panic -> "P" in
